@@ -205,6 +205,14 @@ def check(case, ctx):
     again = must_return(f"Grid.{case['op']} (repeated)", fn, da, spell_axis(case["op_axes"], case["axis_spelling"]), **kw)
     compare(again, exp, exp_dims, "the same call repeated after other calls on the same Grid", case)
 
+    # the very same DataArray object, updated in place (a time-stepping loop): the result follows the new values
+    if case.get("dtype", "float64") != "float32":
+        newvals = (3 - 2 * np.asarray(case["values"], dtype=np.float64)).tolist()
+        da.values[...] = np.asarray(newvals).astype(da.dtype)
+        exp_u, exp_dims_u, _ = expected(dict(case, values=newvals), by_name, rules, fills, targets)
+        upd = must_return(f"Grid.{case['op']} (input updated in place)", fn, da, spell_axis(case["op_axes"], case["axis_spelling"]), **kw)
+        compare(upd, exp_u, exp_dims_u, "the same call after the input object was updated in place", case)
+
     shifts = [f"{case['data_pos'][n]}>{targets[n]}" for n in case["op_axes"]]
     classes = [f"op:{case['op']}", f"naxes:{len(case['op_axes'])}"] + [f"shift:{s}" for s in shifts]
     classes += [f"rule:{rules[n]}" for n in case["op_axes"]]
